@@ -154,7 +154,7 @@ pub enum Eff {
     Open { name: String, ino: usize },
     Create { name: String, ino: usize },
     SetLen { name: String, ino: usize, len: u64 },
-    Seek { ino: usize, pos: u64 },
+    Seek { name: String, ino: usize, pos: u64 },
     Read { name: String, ino: usize, off: u64, len: usize },
     Write { name: String, ino: usize, off: u64, data: Vec<u8> },
     SyncData { name: String, ino: usize },
@@ -214,7 +214,7 @@ impl Eff {
             Eff::Open { name, .. } => format!("open({name})"),
             Eff::Create { name, .. } => format!("create({name})"),
             Eff::SetLen { name, len, .. } => format!("set_len({name},{len})"),
-            Eff::Seek { pos, .. } => format!("seek({pos})"),
+            Eff::Seek { name, pos, .. } => format!("seek({name},{pos})"),
             Eff::Read { name, off, len, .. } => format!("read({name},{off},{len})"),
             Eff::Write { name, off, data, .. } => format!("write({name},{off},{})", data.len()),
             Eff::SyncData { name, .. } => format!("fsync({name})"),
@@ -546,7 +546,7 @@ impl VerifFs for SimFs {
         }
         let new_pos = new_pos as u64;
         self.handles.get_mut(&handle).unwrap().pos = new_pos;
-        self.push(Eff::Seek { ino, pos: new_pos });
+        self.push(Eff::Seek { name: name.clone(), ino, pos: new_pos });
         self.last_cursor = Some((name, new_pos));
         Ok(new_pos)
     }
